@@ -178,10 +178,16 @@ impl Connection {
 //@ subst `self.quic_connection
 //@ |            .max_datagram_size()` => `quic_max`
 //@ subst `Datagram::header_size(self.session_id)` => `DriverDatagram::header_size(session_id)`
+//@ subst `|quic_max_size| {` => `|quic_max_size: usize| -> (o: Option<usize>)
+//@ |                ensures
+//@ |                    o matches Some(m) ==> m + varint_len(session_id.val() / 4) == quic_max_size,
+//@ |                    o is None ==> quic_max_size < varint_len(session_id.val() / 4),
+//@ |            {`
 //@ requires session_id.wf()
 //@ ensures
 //@ | quic_max is None ==> r is None,
-//@ | r matches Some(m) ==> quic_max is Some && m + varint_len(session_id.val() / 4) == quic_max->0
+//@ | r matches Some(m) ==> quic_max is Some && m + varint_len(session_id.val() / 4) == quic_max->0,
+//@ | r is None && quic_max is Some ==> quic_max->0 < varint_len(session_id.val() / 4)
 //@ end
 }
 
